@@ -514,6 +514,7 @@ class Typer:
         self.prog = prog
         self._attr_cache: t.Dict = {}
         self._alias_active: t.Set[str] = set()
+        self._ret_active: t.Set[str] = set()
 
     def ann_type(self, ann, mi) -> t.Optional[tuple]:
         if ann is None:
@@ -648,6 +649,18 @@ class Typer:
                         if q is None and name.split(".")[-1] == "replace" and v.args and isinstance(v.args[0], ast.Name) \
                                 and fi.params() and v.args[0].id == fi.params()[0] and fi.cls is not None:
                             q = fi.cls.qual
+                        if q is None and fi.cls is not None and isinstance(v.func, ast.Attribute) and isinstance(v.func.value, ast.Name) \
+                                and fi.params() and v.func.value.id == fi.params()[0] and fi.qual not in self._ret_active:
+                            # return self._helper(...): what that method of the same class returns
+                            m_ = self.prog.lookup_method(fi.cls.qual, v.func.attr)
+                            if m_ is not None and m_ is not fi:
+                                self._ret_active.add(fi.qual)
+                                try:
+                                    rt_ = self.return_type(m_)
+                                finally:
+                                    self._ret_active.discard(fi.qual)
+                                if rt_ and rt_[0] == "cls":
+                                    q = rt_[1]
                 found.add(q)
         if len(found) == 1 and None not in found:
             return ("cls", found.pop())
@@ -720,6 +733,13 @@ class Typer:
                 fi = self.prog.functions.get(f[1])
                 if fi is not None:
                     return self.return_type(fi)
+            if f[0] == "ext" and f[1] in ("list", "tuple", "sorted", "reversed", "iter", "set", "frozenset") and len(tm[2]) == 1:
+                # a snapshot / conversion keeps the element type
+                it = self.type_of(tm[2][0])
+                if it and it[0] in ("list", "set"):
+                    return ("list", it[1])
+                if it and it[0] == "dict":
+                    return ("list", it[1])
             return None
         if tag == "ite":
             return self.type_of(tm[2]) or self.type_of(tm[3])
@@ -1881,6 +1901,10 @@ class Engine:
                                     e.kind in ("store", "await") or (e.kind == "call" and e.sched) for e in ps[0].events):
                                 self._nt_terms.update(sub._nt_terms)
                                 return ps[0].outcome[1]
+                if v[0] == "new" and isinstance(node, ast.Call) and v[1] in self.prog.classes and self.prog.is_dataclass(v[1]) \
+                        and getattr(self.prog.classes[v[1]], "dataclass_frozen", False) and v[1] not in baseline_classes() \
+                        and all(x[0] in ("const", "cls", "tuple", "set") for _, x in v[2]):
+                    return ("new", v[1], v[2], ("const", g[1], g[2]))  # an immutable private record built at import time
                 if v[0] in ("set", "tuple") and isinstance(node, ast.Call) and dotted(node.func) in ("frozenset", "tuple") \
                         and all(is_const(x) for x in v[1]):
                     return v  # an immutable collection of constants computed at import time
@@ -1927,6 +1951,45 @@ class Engine:
         ty = self.typer.type_of(tm)
         return ty[1] if ty and ty[0] == "cls" else None
 
+    def _injected(self, base, attr):
+        """owner.h.attr where  owner.__init__ does  self.h = Component(ARG, ..)  and  Component.__init__ does
+        self.attr = <that parameter>  (and nothing else ever assigns h / attr): the injected value is ARG evaluated in the
+        owner (a bound method of the owner handed to a private component, a shared table, a constant)"""
+        if base[0] != "attr" or base[1][0] != "self" or not self.policy.transparent_helpers:
+            return None
+        oc = base[1][1]
+        hc = self.typer.type_of(base)
+        if not hc or hc[0] != "cls" or hc[1] in baseline_classes() or hc[1] not in self.prog.classes:
+            return None
+        oci, cci = self.prog.classes.get(oc), self.prog.classes[hc[1]]
+        if oci is None:
+            return None
+        hin = [(f_, v_) for c_ in oci.mro for (f_, v_) in self.prog.classes[c_].attr_init.get(base[2], [])]
+        ain = cci.attr_init.get(attr, [])
+        if len(hin) != 1 or len(ain) != 1 or hin[0][0].name != "__init__" or ain[0][0].name != "__init__":
+            return None
+        call, pv = hin[0][1], ain[0][1]
+        cinit = ain[0][0]
+        if not (isinstance(call, ast.Call) and isinstance(pv, ast.Name) and pv.id in cinit.params()[1:]):
+            return None
+        if any(isinstance(a_, ast.Starred) for a_ in call.args):
+            return None
+        idx = cinit.params()[1:].index(pv.id)
+        arg = call.args[idx] if idx < len(call.args) else next((k.value for k in call.keywords if k.arg == pv.id), None)
+        if arg is None:
+            return None
+        # ARG may only mention self (the owner) and constants
+        if any(isinstance(n_, ast.Name) and n_.id != "self" for n_ in ast.walk(arg) if isinstance(n_, ast.Name)) \
+                and not all(isinstance(n_, ast.Name) and (n_.id == "self" or n_.id in BUILTIN_NAMES or self.prog.resolve_global(hin[0][0].module, n_.id))
+                            for n_ in ast.walk(arg) if isinstance(n_, ast.Name)):
+            return None
+        st = _State()
+        st.env["self"] = base[1]
+        try:
+            return self._eval(arg, st, hin[0][0], 99, _Chooser())
+        except (_RaiseSignal, AnalysisError):
+            return None
+
     def _canon_attr(self, base, attr):
         """composition: `owner.h.y` where the owner's class has a property X that just returns self.h.y is the owner's own
         attribute X (and X itself is read as a plain attribute, not as a call of its getter)"""
@@ -1946,6 +2009,9 @@ class Engine:
         oc_ = self._owner_class(base) if base[0] in ("self", "attr", "param", "var") else None
         if oc_ is not None and attr in self.prog.forwarders(oc_).values():
             return ("attr", base, attr)  # a forwarding property: the attribute it presents
+        inj = self._injected(base, attr)
+        if inj is not None:
+            return inj
         nt = self._nt_field(base, attr)
         if nt is not None:
             cq, idx = nt
@@ -1961,7 +2027,7 @@ class Engine:
                     ev_.targets = [m]
                     ev_.recv = base
                     ev_.attrname = attr
-                    if self.policy.inline_properties or self.is_unknown_helper(m):
+                    if self.policy.inline_properties or _strip_at(m.qual) not in baseline_functions():
                         return self._inline(m, base, cq, (), (), ev_, node, s, fi, depth, ch)
                     ev_.result = ("call", ("bound", base, m.qual), (), (), self.site(node, fi, s))
                     return ev_.result
@@ -2040,7 +2106,7 @@ class Engine:
             m = self.prog.lookup_method(cq, attr)
             if m is not None:
                 if m.kind == "property" and not is_clsobj:
-                    if self.policy.inline_properties:
+                    if self.policy.inline_properties or (self.policy.transparent_helpers and _strip_at(m.qual) not in baseline_functions()):
                         return self._call_function(("bound", base, m.qual), (), (), self.site(node, fi, s), node, s, fi, depth, ch, prop=True)
                     return ("attr", base, attr)
                 if m.kind == "staticmethod":
@@ -2141,7 +2207,9 @@ class Engine:
             elems = self._iter_elems(first_it)
             if elems is not None and len(elems) <= 8:
                 out = []
-                for el in elems:
+                outer_iter = s.env.get("$iter")
+                for i_, el in enumerate(elems):
+                    s.env["$iter"] = (outer_iter or ()) + ((node.lineno, node.col_offset, i_),)  # evaluation identity per element
                     self._assign(g.target, el, s, fi, depth, ch)
                     out.append(self._eval(node.elt, s, fi, depth, ch))
                 s.env.clear()
@@ -2495,6 +2563,12 @@ class Engine:
             res = ("coro", ("bound", recv, callee.qual) if recv is not None else ("func", callee.qual), args, kwargs, site)
             e.result = res
             return res
+        if f[0] == "func" and callee.kind in ("method", "property") and callee.cls is not None and recv is None and args \
+                and args[0][0] != "starred":
+            # Class.method(obj, ...): an unbound method applied to its receiver
+            recv, args = args[0], tuple(args[1:])
+            rc = self._owner_class(recv) or callee.cls.qual
+            e.recv = recv
         if self._should_inline(callee, depth, e):
             return self._inline(callee, recv, rc, args, kwargs, e, node, s, fi, depth, ch)
         self._raise_point(e, s, ch, node)
@@ -2531,6 +2605,8 @@ class Engine:
             ccls = caller.parent.cls
         if ccls is None:
             return False
+        if ccls.qual not in baseline_classes():
+            return True  # a private component calling back into an (equally new) private method of its owner
         return self.prog.is_subclass(ccls.qual, callee.cls.qual) or self.prog.is_subclass(callee.cls.qual, ccls.qual)
 
     def is_unknown_helper(self, callee: FuncInfo) -> bool:
@@ -2579,6 +2655,21 @@ class Engine:
         s.heap = dict(s2.heap)
         s.known = dict(s2.known)
         s.truncated = s.truncated or s2.truncated
+        # a mutable buffer / list handed to the helper by name and extended there in place (buf += .., buf.extend(..),
+        # xs.append(..)) is the caller's object: the caller's variable sees the extension
+        if isinstance(node, ast.Call) and self.transparent(callee, e.func):
+            pnames = [a_.arg for a_ in callee.node.args.posonlyargs + callee.node.args.args]
+            if callee.kind in ("method", "classmethod", "property") and pnames:
+                pnames = pnames[1:]
+            for an_, pn_ in zip(node.args, pnames):
+                if isinstance(an_, ast.Name) and an_.id in s.env and pn_ in s2.env:
+                    before, after = s.env[an_.id], s2.env[pn_]
+                    if before != after and (_is_bytebuf(before) or before[0] == "list"):
+                        grown = after
+                        while grown[0] == "binop" and grown[1] == "+" and grown != before:
+                            grown = grown[2]
+                        if grown == before or (before[0] == "list" and after[0] == "list" and after[1][:len(before[1])] == before[1]):
+                            s.env[an_.id] = after
         if kind == "raise":
             exc, term, n2 = val
             if callee.log_exceptions and self.exc.is_sub(exc, "Exception"):
